@@ -1090,14 +1090,16 @@ class PiecewiseLinearCoalescentGrid(Distribution):
         # Integrate 1/N(t) over each interval
         intervals = grid_heights_sorted[..., 2:] - grid_heights_sorted[..., 1:-1]
         diff_thetas = pop_sizes[..., 2:] - pop_sizes[..., 1:-1]
-        diff_log_thetas = log_pop_sizes[..., 2:] - log_pop_sizes[..., 1:-1]
 
-        # flat segments (equal population sizes at both ends) integrate to
-        # duration / population size of that segment; written symmetrically so that
-        # the gradient is the limit of the gradient of the general formula
-        integral = 2.0 * intervals / (pop_sizes[..., 1:-1] + pop_sizes[..., 2:])
-        idx = (diff_thetas != 0.0).nonzero(as_tuple=True)
-        integral[idx] = intervals[idx] * diff_log_thetas[idx] / diff_thetas[idx]
+        # duration (log b - log a) / (b - a) written as duration / a * log1p(x) / x
+        # with x = (b - a) / a: no cancellation when the two ends are almost equal.
+        # Flat segments (x = 0) integrate to duration / a; 1 - x/2 is the value and
+        # the slope of log1p(x)/x there
+        x = diff_thetas / pop_sizes[..., 1:-1]
+        is_flat = x == 0.0
+        x_safe = torch.where(is_flat, torch.ones_like(x), x)
+        ratio = torch.where(is_flat, 1.0 - 0.5 * x, torch.log1p(x_safe) / x_safe)
+        integral = intervals / pop_sizes[..., 1:-1] * ratio
 
         return -torch.sum(
             lchoose2[..., 1:] * integral,
